@@ -67,7 +67,7 @@ def requests(rnd):
     for p in paths:
         method = rnd.choice([b'GET', b'POST', b'DELETE', b'PUT'])
         body = b'payload-%d' % rnd.randrange(100) if method in (b'POST', b'PUT') else b''
-        hs = [(b'Host', b'front.example'), (rnd.choice([b'X-A', b'x-a']), b'v:1'), (b'Accept', b'*/*')]
+        hs = [(rnd.choice([b'Host', b'host', b'HOST', b'hOsT']), b'front.example'), (rnd.choice([b'X-A', b'x-a']), b'v:1'), (b'Accept', b'*/*')]
         rnd.shuffle(hs)
         raw = method + b' ' + p + b' HTTP/1.1\r\n' + b''.join(a + b': ' + b + b'\r\n' for a, b in hs) + \
             (b'Content-Length: %d\r\n' % len(body) if body else b'') + b'\r\n' + body
